@@ -1364,9 +1364,10 @@ func checkC19(rc *RunCtx, in *minInst, r *minRun, nTasks int) *Violation {
 		// (minimize.go, "Algorithmic Overview"). So the optimum reported for
 		// GuessAndCheck and ListSearch is the minimum over all Func callbacks
 		// made, whatever the schedule.
-		if (in.method == mGuessAndCheck || in.method == mListSearch) && log.allFinite() && log.n > 0 && st.MajorIterations > 0 {
-			if min := log.minValue(); res.F > min {
-				return &Violation{prop, "minimize/coherence/best-of-evaluated/" + name, fmt.Sprintf("%s: Result.F=%v at X=%v, but the objective was evaluated to %v during the run (%d evaluations, status %v, Concurrent=%d): a late result was not taken into account",
+		// NaN evaluations do not count: a NaN is never better than a number.
+		if (in.method == mGuessAndCheck || in.method == mListSearch) && !math.IsInf(log.minValue(), 1) && !log.overflow && log.n > 0 && st.MajorIterations > 0 {
+			if min := log.minValue(); !(res.F <= min) {
+				return &Violation{prop, "minimize/coherence/best-of-evaluated/" + name, fmt.Sprintf("%s: Result.F=%v at X=%v, but the objective was evaluated to %v during the run (%d evaluations, status %v, Concurrent=%d): the method did not keep, or did not announce, the best value it was handed",
 					name, res.F, res.X, min, log.nFunc, res.Status, in.conc)}
 			}
 		}
@@ -1616,7 +1617,9 @@ func checkC19(rc *RunCtx, in *minInst, r *minRun, nTasks int) *Violation {
 	// that ends without an error has reached the minimizer: F is within 1e-6
 	// (relative to 1+|F*|) of the minimum F* = -b'A^-1 b/2, far looser than the
 	// default tests (gradient 1e-12, F unchanged by 1e-10 for 100 iterations).
-	if in.isolated == 4 && err == nil && in.prime == 0 {
+	// (also when the run ends with a line-search failure: at the default
+	// tolerances that happens at rounding level, next to the minimizer)
+	if in.isolated == 4 && in.prime == 0 && res != nil && st.MajorIterations > 0 {
 		rc.oracle("default-settings-reach-minimizer")
 		var ch mat.Cholesky
 		if ch.Factorize(in.obj.qa) {
@@ -1624,7 +1627,22 @@ func checkC19(rc *RunCtx, in *minInst, r *minRun, nTasks int) *Violation {
 			if ch.SolveVecTo(xs, mat.NewVecDense(in.dim, append([]float64(nil), in.obj.qb...))) == nil {
 				fstar := in.obj.f(xs.RawVector().Data)
 				if !(res.F-fstar <= 1e-6*(1+math.Abs(fstar))) {
-					return &Violation{prop, "minimize/default-settings/not-at-minimizer/" + name, fmt.Sprintf("%s with default settings on %s from %v stopped with status %v at F=%v, X=%v; the minimum is %v at %v (%d func evaluations, %d major iterations)",
+					cause := "no-error"
+					switch {
+					case err == nil:
+					case errors.Is(err, optimize.ErrNoProgress):
+						cause = "no-progress"
+					case errors.Is(err, optimize.ErrLinesearcherFailure):
+						cause = "linesearch-failed"
+					case errors.Is(err, optimize.ErrNonDescentDirection):
+						cause = "non-descent-direction"
+					case errors.Is(err, optimize.ErrLinesearcherBound):
+						cause = "linesearch-bound"
+					default:
+						cause = "other-error"
+					}
+					ls := []string{"default", "Backtracking", "Bisection", "MoreThuente"}[in.ls]
+					return &Violation{prop, "minimize/default-settings/not-at-minimizer/" + name + "/" + ls + "/" + cause, fmt.Sprintf("%s with default settings on %s from %v stopped with status %v at F=%v, X=%v; the minimum is %v at %v (%d func evaluations, %d major iterations)",
 						name, in.obj.name, in.initX, res.Status, res.F, res.X, fstar, xs.RawVector().Data, st.FuncEvaluations, st.MajorIterations)}
 				}
 			}
